@@ -1762,6 +1762,11 @@ def lt(left: Any, right: Any) -> bool:
     if tol != tor:
       return tol < tor
 
+  if left is None or isinstance(left, utils.MissingValue):
+    # `right` has the same type order, thus both are None or both are missing
+    # values, which are equal.
+    return False
+
   # Most symbolic nodes are leaf, which are primitive types, therefore
   # we detect such types to make `lt` to run faster.
   if isinstance(left, (int, float, bool, str)):
